@@ -14,7 +14,10 @@ LenOf(lc) == IF lc.full = 0 THEN lc.extra ELSE Pss0 + (lc.full - 1) * Pss + lc.e
 
 Catalogue(L) ==
   {NoTamper}
-  \cup {T("flip", u, -1, -1, "first") : u \in {HeaderUnits[i] : i \in 1..Len(HeaderUnits)} \ {"tsalt2", "tnp2"}}
+  \* ("jseg" = segment size + 1: the boundary shift accumulates over the segments, which the scaled constants
+  \*  only mirror faithfully for parts of at most two segments; longer parts get the "segsize" tamper)
+  \cup {T("flip", u, -1, -1, "first") : u \in ({HeaderUnits[i] : i \in 1..Len(HeaderUnits)} \ {"tsalt2", "tnp2"})
+                                              \ (IF NumSeg(L) > 2 THEN {"jseg"} ELSE {})}
   \cup {T("flip", u, j, -1, wh) : u \in {"body", "tag"}, j \in 0..(NumSeg(L) - 1), wh \in {"first", "last"}}
   \cup {T("trunc", u, -1, -1, "-") : u \in {"zero", "len", "afterlen", "json", "afterhdr", "tinkhdr", "aftertink", "lasttag"}}
   \cup {T("trunc", u, j, -1, "-") : u \in {"segstart", "segstart1", "segmid"}, j \in 0..(NumSeg(L) - 1)}
